@@ -21,7 +21,8 @@ WARMUP = [
     "{ RdV = RsV; }",                                     # +0
     "{ RdV = revbit32(RsV) + clz32(RtV) + clo32(RsV); }", # +3
 ]
-BUNDLED_NAMES = ["clz32", "clz64", "clo32", "clo64", "revbit16", "revbit32", "revbit64", "fbrev", "conv_round", "fcirc_add"]
+BUNDLED_NAMES = ["clz32", "clz64", "clo32", "clo64", "revbit16", "revbit32", "revbit64", "fbrev", "conv_round", "fcirc_add",
+                 "set_usr_field", "get_usr_field"]
 FIXED_CALLERS = [
     # (text, checker name) - bundled routines used the way the shipped corpus uses them
     "{ RdV = clz32(RsV) + clz32(RtV); }",
@@ -35,6 +36,10 @@ FIXED_CALLERS = [
     "{ int32_t mask = 5; RxV = fcirc_add(bundle, RxV, siV, MuV, HEX_REG_ALIAS_CS0) + mask; }",
     "{ int32_t keep = clz32(RsV); RdV = clz32(RtV) + keep; }",
     "{ RdV = (RsV > RtV) ? clz32(RsV) : clo32(RtV); }",
+    # enum / packet pass-through arguments
+    "{ set_usr_field(bundle, HEX_REG_FIELD_USR_OVF, 1); }",
+    "{ RdV = get_usr_field(bundle, HEX_REG_FIELD_USR_LPCFG) + clz32(RsV); }",
+    "{ set_usr_field(bundle, HEX_REG_FIELD_USR_LPCFG, clz32(RsV)); }",
 ]
 
 
@@ -169,7 +174,7 @@ class EngineC08(HistEngine):
             if c is None:
                 continue
             log.add("caller", op["caller"], o["status"], o.get("hyb_before"), stable_hash(o.get("parts", [{}])[0].get("code", ""))[:12])
-            missing = [u for u in c["uses"] if u not in registered and u not in cref.BUNDLED and u != "fcirc_add"]
+            missing = [u for u in c["uses"] if u not in registered and u not in cref.BUNDLED and u not in BUNDLED_NAMES]
             if o["status"] != "ok":
                 if not missing:
                     # registered through the public API, so the call must compile - unless a fresh compiler rejects it as well
@@ -377,6 +382,19 @@ class EngineC08(HistEngine):
             elif new_ptr < start:
                 new_ptr = (new_ptr + length) & m32
             return "Rx_op", (32, new_ptr)
+        if text in FIXED_CALLERS[11:14]:
+            usr = st.reg("usr_op")
+
+            def deposit(v, off, w, f):
+                m = ((1 << w) - 1) << off
+                return (v & ~m & m32) | ((f << off) & m)
+            if text == FIXED_CALLERS[11]:
+                off, w = il.REGFIELDS["HEX_REG_FIELD_USR_OVF"]
+                return "usr_op", (32, deposit(usr, off, w, 1))
+            off, w = il.REGFIELDS["HEX_REG_FIELD_USR_LPCFG"]
+            if text == FIXED_CALLERS[12]:
+                return "Rd_op", (32, (((usr >> off) & ((1 << w) - 1)) + B["clz32"]["native"](rs)) & m32)
+            return "usr_op", (32, deposit(usr, off, w, B["clz32"]["native"](rs)))
         if text == FIXED_CALLERS[9]:
             return "Rd_op", (32, (B["clz32"]["native"](rt) + B["clz32"]["native"](rs)) & m32)
         if text == FIXED_CALLERS[10]:
